@@ -97,6 +97,7 @@ func runAuditAll(shard string, out string) int {
 		if len(row.KilledBy) > 0 {
 			row.Outcome = "killed"
 		}
+		releaseWorld(w)
 		enc.Encode(row)
 		done++
 	}
